@@ -11,8 +11,9 @@ Proofs: Props/Properties_C10.v over Model/ScannerHist.v.  Tie, on every run:
   * independently of the model, every scan is repeated on a freshly created scanner with the same
     settings and script and must report the same;
   * the histories run again in the ASan build: leakcheck after destroy must be 0.
-Hazard histories (abandoned suspension, destroy while suspended, external named like a module) are
-where the model of the code predicts a leak / a difference; they are checked the same way."""
+Hazard histories (abandoned suspension, destroy while suspended, external named like a module, PE then
+text under a rule using `entrypoint`) are where the pinned commit failed; they are checked the same way
+and any difference is a violation."""
 import hashlib, os, re
 import vlib, build
 from vlib import hx
@@ -433,12 +434,8 @@ def run(chk):
                 if mtrace != want:
                     got_h = msgs
                     exp_h = intern.back(mtrace[1:].rsplit(":", 1)[0]) if mtrace.startswith("T") else mtrace
-                    if hid.startswith("abandon"):
-                        chk.violation("abandoned-suspension-leaks-matches", "%s op %d (%s): after a scan left at ERROR_BLOCK_NOT_READY the next scan "
-                                      "reports [%s]; without the lingering matches it would report [%s]" % (hid, oi, o["m"], got_h[:300], exp_h[:300]), replay)
-                    else:
-                        chk.violation("corr-trace", "%s op %d (%s): implementation reports [%s] rc=%d, model predicts [%s] rc=%s" % (
-                            hid, oi, o["m"], got_h[:300], rc, exp_h[:300], mtrace.rsplit(":", 1)[-1]), replay, found_input=False)
+                    chk.violation("corr-trace", "%s op %d (%s): implementation reports [%s] rc=%d, model predicts [%s] rc=%s" % (
+                        hid, oi, o["m"], got_h[:300], rc, exp_h[:300], mtrace.rsplit(":", 1)[-1]), replay, found_input=False)
                 else:
                     agree += 1
                 nontriv.add(("scan", o.get("inp"), rc, bool(o.get("script")), bool(o.get("plan")), ms["ep"] != "-"))
@@ -498,7 +495,7 @@ def run(chk):
             r2 = dict(replay, fresh_scanner_lines=fl, reused=reused_line, fresh=sl[0], op_index=oi)
             a, b = parse_scan(reused_line)[0].split(";"), parse_scan(sl[0])[0].split(";")
             diff = sorted(set(a) ^ set(b))
-            if ms["ep_before"] != "-" and gl and gl[0] == reused_line and not hid.startswith("abandon"):
+            if ms["ep_before"] != "-" and gl and gl[0] == reused_line:
                 key = "entry-point-stale"
                 what = ("%s: after the history %s the scan '%s' reports %s; a freshly created scanner with the same settings reports %s "
                         "(scanner->entry_point still holds %s from an earlier file: scanner.c sets it only when undefined and never resets it; "
